@@ -582,7 +582,17 @@ func (in *Interp) visit(fr *frame, instr ssa.Instruction) continuation {
 		if x == nil {
 			fr.set(instr, (*Value)(nil))
 		} else {
-			in.unsupported("SliceToArrayPointer on non-nil slice")
+			// Engine limitation: the result points at a copy of the first n
+			// elements; aliasing with the slice's backing array is lost (exact
+			// when the pointer is only loaded from or compared, as in the
+			// lowering of [N]T(s)).
+			arr := make(Array, n)
+			for i := range arr {
+				arr[i] = copyVal(x[i])
+			}
+			p := new(Value)
+			*p = arr
+			fr.set(instr, p)
 		}
 
 	case *ssa.MakeInterface:
